@@ -64,6 +64,23 @@ theorem C20_observation_is_tracked (cfg : Cfg) (store0 : Obj → Attr → Val) (
   let h := ((C20_invariant cfg store0 sched).1 s).1 o a
   ⟨(h.2.2.2.1 v hobs).2.1, (h.2.2.2.1 v hobs).2.2, (h.2.2.2.1 v hobs).1⟩
 
+/-- the ghost `obs` is what the application received: when `obj.a` returns `v` and the session holds no unflushed
+    assignment to `a` (so `v` comes from the database), `v` is the recorded observation -/
+theorem C20_read_is_observed (cfg : Cfg) (σ : State) (s : Sid) (o : Obj) (a : Attr) (v : Val)
+    (hres : (step cfg σ s (.read o a)).2.res = .ok (some v)) (hw : ((σ.sess s).objs o).wbits a = false)
+    (hvol : cfg.volatile a = false) : (((step cfg σ s (.read o a)).1.sess s).objs o).obs a = some v :=
+  read_obs cfg σ s o a v hres hw hvol
+
+/-- the ghost `written` records every assignment `obj.a = v` -/
+theorem C20_write_is_recorded (cfg : Cfg) (σ : State) (s : Sid) (o : Obj) (a : Attr) (v : Val)
+    (hres : (step cfg σ s (.write o a v)).2.res = .ok none) :
+    (((step cfg σ s (.write o a v)).1.sess s).objs o).written a = true
+    ∧ (((step cfg σ s (.write o a v)).1.sess s).objs o).vals a = some v := by
+  simp only [step] at hres ⊢
+  split
+  · rename_i hc; simp [hc] at hres
+  · simp [State.withSess, ObjSt.write]
+
 /-- **C20_fail_commits_nothing.** A step that raises OptimisticCheckError / UnrepeatableReadError applies no UPDATE,
     leaves the committed rows as they were, discards the whole session cache with all its uncommitted writes (rollback)
     and releases the write lock. -/
